@@ -248,6 +248,58 @@ pub fn transcript(keep: usize, scale: usize) -> Transcript {
             }
         }
     }
+    // ---- counting wrappers: results, counters and positions, with bulk copies through the wrapper ----
+    for e in En::BOTH {
+        for w in [WWord::U64, WWord::U16] {
+            let sec = format!("wrap-write/{}/{}", e.name(), w.name());
+            let src_img = random_image(&mut rng, Pattern::Random, 1024, e);
+            for h in 0..8 * scale {
+                let mut wr = make_wrapped_writer(e, w, Wrap::Count);
+                let mut src = make_reader(RCfg { e, kind: RKind::ALL[h % 5], be: RBackend::MemZ }, &src_img);
+                let ops = clean_ops(&mut rng, 1 + h % 12, w.bits());
+                for (i, op) in ops.iter().enumerate() {
+                    let r = match op {
+                        WOp::Bits(v, n) => guard(|| wr.w.write_bits(*v, *n)),
+                        WOp::Unary(x) => guard(|| wr.w.write_unary(*x)),
+                        WOp::Flush => guard(|| wr.w.flush()),
+                        WOp::Code(c, v) => guard(|| wr.w.write_code(*c, *v)),
+                        WOp::IoWrite(_) => continue,
+                    };
+                    t.ev(&sec, format!("{} -> {} counter {:?}", op.to_string(), show(&r), wr.w.counter()));
+                    if (i + h) % 3 == 0 {
+                        let n = [1u64, 7, 64, 65, 130, 517][(i + h) % 6];
+                        let r = guard(|| wr.w.copy_from(src.r.as_mut(), n));
+                        t.ev(&sec, format!("copy_from {} -> {} counter {:?} source at {}", n, show(&r), wr.w.counter(), show(&guard(|| src.r.bit_pos().unwrap()))));
+                    }
+                }
+                let _ = guard(|| wr.w.flush());
+                t.ev(&sec, format!("image {} counter {:?}", hex(&wr.w.delivered().unwrap_or_default()), wr.w.counter()));
+            }
+        }
+        for kind in [RKind::Buf16, RKind::Buf32, RKind::Buf64, RKind::Unbuf] {
+            let sec = format!("wrap-read/{}/{}", e.name(), kind.name());
+            let img = random_image(&mut rng, Pattern::Random, 1024, e);
+            for h in 0..8 * scale {
+                let mut r = make_wrapped_reader(e, kind, Wrap::Count, &img);
+                let mut dst = make_writer(WCfg { e, w: WWord::ALL[h % 5], be: WBackend::Rec(None) });
+                for i in 0..(2 + h % 9) {
+                    let s = match (i + h) % 5 {
+                        0 => format!("read_bits -> {}", show(&guard(|| r.r.read_bits(1 + (i * 13 + h) % 64)))),
+                        1 => format!("peek_bits -> {}", show(&guard(|| r.r.peek_bits(1 + (i + h) % kind.peek_limit())))),
+                        2 => format!("skip_bits -> {}", show(&guard(|| r.r.skip_bits((i * 29 + h) % 150)))),
+                        3 => format!("read_unary -> {}", show(&guard(|| r.r.read_unary()))),
+                        _ => {
+                            let n = [1u64, 9, 64, 65, 129, 300][(i + h) % 6];
+                            format!("copy_to {} -> {}", n, show(&guard(|| r.r.copy_to(dst.w.as_mut(), n))))
+                        }
+                    };
+                    t.ev(&sec, format!("{} counter {:?} pos {:?}", s, r.r.counter(), r.r.bit_pos()));
+                }
+                let _ = guard(|| dst.w.flush());
+                t.ev(&sec, format!("copied {}", hex(&dst.w.delivered().unwrap_or_default())));
+            }
+        }
+    }
     // ---- lengths ----
     for code in code_grid(false) {
         let sec = format!("len/{}", code.family());
